@@ -108,6 +108,9 @@ fn check(case: &Case) -> PResult {
                 let expected = if n >= k { n - k + 1 } else { 0 };
                 ensure_eq!(it.items.len(), expected, format!("kmers_count/{tag}"), "number of {k}-mers of a {n}-symbol sequence");
                 ensure!(it.terminated, format!("kmers_terminates/{tag}"), "kmers::<{k}>() yields more items after None");
+                if let Some(f) = it.laws {
+                    return Err(Fail { site: format!("{}/{tag}", f.site), msg: format!("kmers::<{k}>() over {n} symbols: {}", f.msg) });
+                }
                 ensure_eq!(it.nwindows, expected, format!("windows_count/{tag}"), "number of windows({k})");
                 for (i, item) in it.items.iter().enumerate() {
                     let w = &codes[i..i + k];
@@ -203,8 +206,8 @@ pub fn run(ctx: &mut Ctx) {
             if ks.is_empty() {
                 continue;
             }
-            let per = if st == St::Usize { 30 } else { 20 };
-            let cases = ctx.cases((ks.len() * per) as u32, 20);
+            let per = if st == St::Usize { 80 } else { 50 };
+            let cases = ctx.cases((ks.len() * per) as u32, 10);
             ctx.forall(&format!("kmers/{}/{}", id.name(), st.name()), cases, strat(id, st, ks), check);
         }
     }
